@@ -1,12 +1,41 @@
-(* Props/C02.v — property theorems only (grows as the proofs land). *)
+(* Props/C02.v — property theorems only. *)
 From Coq Require Import List NArith ZArith.
-From N0 Require Import Base.PyStr Base.PyVal.
+From N0 Require Import Base.PyStr Base.PyVal Xpath.Dec Xpath.DecProofs Xpath.Token Xpath.TokenProofs
+  Xpath.Find Xpath.FindProofs Xpath.Write Xpath.SpecProofs Xpath.WalkProofs.
 Import ListNotations.
 
-Theorem C02_update_read_back : forall (k : pstr) (v : tree) kvs, lookup k (update k v kvs) = Some v.
-Proof. exact (@lookup_update_same tree). Qed.
-Print Assumptions C02_update_read_back.
+(* d[xpath] = v on a path that spells an existing node (by key, index, negative index;
+   leaf or inner node) never raises and yields exactly the tree with that one slot
+   replaced (replace_at is the plain nested dict/list update). *)
+Theorem C02_set_existing :
+  forall root x v p, keys_ok root -> has_path_char x = true -> no_qmark x -> tokenize x <> [] ->
+  spells root p (tokenize x) ->
+  setitem (wfuel x) root x v = Ok (replace_at root p v).
+Proof. exact set_existing. Qed.
+Print Assumptions C02_set_existing.
 
-Theorem C02_update_frame : forall (k k2 : pstr) (v : tree) kvs, k2 <> k -> lookup k2 (update k v kvs) = lookup k2 kvs.
-Proof. exact (@lookup_update_other tree). Qed.
-Print Assumptions C02_update_frame.
+(* what "exactly that one slot" means for the Spec: the written slot reads back v ... *)
+Theorem C02_get_put : forall t p v u, resolve t p = Some u -> resolve (replace_at t p v) p = Some v.
+Proof. exact resolve_replace_same. Qed.
+Print Assumptions C02_get_put.
+
+(* ... and every path that parts ways with p (a sibling, an unrelated branch, a sibling
+   of an ancestor) resolves exactly as before. *)
+Theorem C02_frame : forall t p q v, diverge p q -> resolve (replace_at t p v) q = resolve t q.
+Proof. exact resolve_replace_other. Qed.
+Print Assumptions C02_frame.
+
+(* any finite sequence of such assignments, each addressing a node that exists when it is
+   applied, equals the plain model that applied the same writes *)
+Theorem C02_set_sequence : forall t ops sops,
+  hist_ok t ops sops ->
+  run_ops t (map (fun xv => WSet (fst xv) (snd xv)) ops) =
+  Ok (fold_left (fun t pv => replace_at t (fst pv) (snd pv)) sops t).
+Proof. exact set_sequence. Qed.
+Print Assumptions C02_set_sequence.
+
+Theorem C02_nonvacuous :
+  exists root x p, keys_ok root /\ has_path_char x = true /\ no_qmark x /\ tokenize x <> [] /\
+                   spells root p (tokenize x) /\ resolve root p = Some (Leaf (SInt 7)).
+Proof. exact c01_example. Qed.
+Print Assumptions C02_nonvacuous.
